@@ -5,6 +5,7 @@
    * `Pre.goQuote`    : the unrepaired path — `defaultFormat(string(st), f, 'q')` = strconv.Quote.  Runes ≥ 0x80 that
                         decode as valid UTF-8 need unicode.IsPrint (a table we do not model): `none`.
    * `scanString`, `scanEscape` : parse/lexer.go, over the `next` stream of Model/Numeral (CR/LF normalisation).
+   * `linesRead`      : the line counter of Scanner.Next/Newline over that stream.
   Core Lean only.
 -/
 import GLua.Model.Numeral
@@ -69,6 +70,14 @@ def scanString (wrap : Bool) (quote : Nat) : Nat → Bytes → Bytes → Option 
       | none => none
       | some (buf', r') => scanString wrap quote fuel r' buf'
     else scanString wrap quote fuel r (buf ++ [toByte ch])
+
+/-- parse/lexer.go Next/Newline: how often `sc.Pos.Line += 1` runs while Next() reads all of a text (a token that
+    follows the text stands on line 1 + that).  Newline pairs CR LF / LF CR by peeking at the next byte of the
+    STREAM: where the reader's buffer ends plays no part. -/
+def linesRead : Nat → Bytes → Nat
+  | 0, _ => 0
+  | _ + 1, [] => 0
+  | fuel + 1, c :: r => (if (next (c :: r)).1 = 10 then 1 else 0) + linesRead fuel (next (c :: r)).2
 
 /-- what `loadstring("return " .. q)()` yields when `q` is one double-quoted literal and nothing else. -/
 def readBack (q : Bytes) (wrap : Bool := false) : Option Bytes :=
